@@ -234,6 +234,23 @@ func genGrp(r *Rng, tier string) *Enc {
 				first.FillNa("edited")
 				return nil
 			})
+			// a caller who asks for the column list and edits the slice it was handed (filters it in place, blanks it)
+			// must not change what the grouping aggregates next
+			guard(func() error {
+				names := g.GetAllColumnNames()
+				kept := names[:0]
+				for i, nm := range names {
+					if i%2 == 1 {
+						kept = append(kept, nm)
+					}
+				}
+				for i := range names {
+					if i >= len(kept) {
+						names[i] = "edited"
+					}
+				}
+				return nil
+			})
 			st2, _ := guard(func() error { var err error; second, err = g.Sum(cols...); return err })
 			e.Tok(st2)
 			if st2 == "ok" {
